@@ -1,6 +1,6 @@
 (* Executor ops for packet/io.go (C16), packet/packetwriter.go (C18), packet/accumulator.go (C17).
    The same op names run the real code in goexec/io.go. *)
-From Gots Require Import Base.Prelude Exec.ExecBase Model.IO.
+From Gots Require Import Base.Prelude Exec.ExecBase Model.IO Model.PacketWriter.
 Open Scope string_scope.
 
 (* io.sync <data> <terminal error code> <bufio size> <underlying reader mode>
@@ -25,6 +25,50 @@ Definition sync_op (a : list val) : val :=
   | _ => vbad
   end.
 
+(* ---- C18 ----
+   scripted packet writer: call number k (from 0) fails with error 61 returning mfail; every other
+   call returns (mok, nil).  k < 0: never fails. *)
+Definition scripted_writer (k : Z) (mfail mok : Z) : PacketWriter.wfun :=
+  fun i _ => if (Z.of_nat i =? k)%Z then (mfail, Some 61) else (mok, None).
+Definition verr (e : option N) : val := match e with None => VI 0%Z | Some e => vn e end.
+Definition wres (r : Res (Z * option N * list bytes)) : val :=
+  match r with
+  | Ok (n, e, calls) => VL [VI 0%Z; VL [VI n; verr e; VL (map VB calls); VI 1%Z]]   (* last field: caller's buffer unchanged (goexec snapshot) *)
+  | Err e => VL [VI 1%Z; vn e]
+  | Panic => VL [VI 2%Z]
+  | Diverge => VL [VI 3%Z]
+  end.
+(* pw.write <p> <k> <mfail> <mok> <adapter 0 = IOWriter, 1 = IOWriteCloser>   reply [0 [n err [calls] input-unchanged]] *)
+Definition write_op (a : list val) : val :=
+  match a with
+  | [VB p; VI k; VI mfail; VI mok; VI _] =>
+    wres (PacketWriter.write (scripted_writer k mfail mok) PacketWriter.pkt0 p)
+  | _ => vbad
+  end.
+(* script = [ [chunk errcode] ... ], errcode 0 = nil *)
+Fixpoint script_of (l : list val) : option PacketWriter.script :=
+  match l with
+  | [] => Some []
+  | VL [VB c; VI e] :: t =>
+    match script_of t with
+    | Some s => Some ((c, if (e =? 0)%Z then None else Some (zN e)) :: s)
+    | None => None
+    end
+  | _ => None
+  end.
+(* pw.readfrom <script> <k> <mfail> <mok> <adapter>   reply [0 [n err [calls] 1]] *)
+Definition readfrom_op (a : list val) : val :=
+  match a with
+  | [VL sc; VI k; VI mfail; VI mok; VI _] =>
+    match script_of sc with
+    | Some s => wres (PacketWriter.read_from (scripted_writer k mfail mok) PacketWriter.pkt0 s)
+    | None => vbad
+    end
+  | _ => vbad
+  end.
+
 Definition ops : list op := [
-  ("io.sync", sync_op)
+  ("io.sync", sync_op);
+  ("pw.write", write_op);
+  ("pw.readfrom", readfrom_op)
 ].
